@@ -429,7 +429,7 @@ func worker(sh *ev.Shard) {
 			}
 			sh.Cur("config", cfg.String())
 			mk := mkHarness(cfg, use, d, pl.maxLive, &calls)
-			st := vsync.Explore(vsync.Config{Deviations: pl.dev}, mk)
+			st := vsync.Explore(vsync.Config{Deviations: pl.dev, OnExec: func(*vsync.Exec) { sh.Tick() }}, mk)
 			if st.Diverged > 0 {
 				sh.Count("replay_diverged", st.Diverged)
 			}
